@@ -636,7 +636,8 @@ func c15SlowCallbackReq(slow, req string) *sched.Scenario {
 func c15RequestDuringSlowTeardown() *sched.Scenario {
 	return &sched.Scenario{Name: "c15-request-during-a-teardown-with-a-slow-deleted-callback", Bound: bound(), FreeBound: 3, Opt: opt,
 		Body: func(s *vsched.Sched) (func() []string, func()) {
-			w := sched.NewBW(sched.BCfg{Perm: 10 * time.Second, Chan: 10 * time.Second, CB: func(kind string) {
+			// (timeouts far beyond the scenario's horizon: what is left behind shows as left behind, it does not expire)
+			w := sched.NewBW(sched.BCfg{Perm: 10 * time.Minute, Chan: 10 * time.Minute, CB: func(kind string) {
 				if kind == "perm-" {
 					vsched.IdleSleep(2 * time.Second)
 				}
